@@ -67,12 +67,14 @@ def structured_cases(rng, tier):
                 for rep in range(3 if k == "swapcharge" else 1):
                     yield Case(["move %s %s %s %d %d" % (k, s, ftok(fr), rng.randint(0, 10 ** 6), rng.randint(0, 1))], {"kind": "structured-frozen-" + k})
             yield Case(["move api_shuffle %s %s %d 1" % (s, ftok(fr), rng.randint(0, 10 ** 6))], {"kind": "structured-frozen-api"})
-    for s in gen.CLAMP_BAND:
+    for s in gen.CLAMP_BAND + gen.ABOVE_MAX + gen.ABOVE_MAX:
         L = len(s)
         for k in ("swapcharge", "shuffle", "swap", "block", "cluster"):
             extra = " %d %d" % (rng.randrange(L), rng.randrange(L)) if k == "swap" else ""
             yield Case(["move %s %s - %d 2%s" % (k, s, rng.randint(0, 10 ** 6), extra)], {"kind": "kappa-warmed-" + k})
         yield Case(["move shuffle,swapcharge,shuffle %s - %d 2" % (s, rng.randint(0, 10 ** 6))], {"kind": "kappa-warmed-chain"})
+        for _r in range(3):
+            yield Case(["move block,block,block %s - %d 1" % (s, rng.randint(0, 10 ** 6))], {"kind": "cached-parent-block-swaps"})
     for _ in range(30 if tier == "quick" else 300):
         s = gen.rand_seq(rng, rng.choice(["polyampholyte", "idp", "blocky"]), rng.randint(8, 30))
         yield Case(["move %s %s - %d 3" % (rng.choice(["shuffle", "shuffle,shuffle", "swapcharge,shuffle", "shuffle,swapcharge"]), s, rng.randint(0, 10 ** 6))],
